@@ -36,6 +36,13 @@ import (
 // (functions + accessor mode) and makes the call first: after SetAccessorMode the results must be
 // Accessors, a function added later must be found, a rebound name must call the new function.
 //
+// 4% of the histories are LONG (class long-history): one path that uses `id` / `max` is parsed 70..100
+// times in a row under one configuration (one long-lived Config object, or a Config built anew for every
+// call), then once under a configuration that binds THE SAME NAMES, `id` and `max` to other functions
+// (the object after SetFilterFunction / SetAggregateFunction, or a separate Config), sometimes followed
+// by the first configuration again. Every repetition must show the same outcome, and the calls after
+// the repetitions the outcome a fresh process gives.
+//
 // Oracle: the observable outcome of every call — error type and full text, or the dump of the
 // tree that was built plus the results, accessor-ness and the user-function call log on three
 // probe documents — equals the outcome of the very same call made FIRST in a FRESH process
@@ -220,6 +227,7 @@ type c19Call struct {
 	NewMuts []string // what is done to that object right before this call: acc = SetAccessorMode, late = a new filter function `late`, rebind = `id` and `max` bound to other functions
 	Muts    []string // everything done to the object up to and including this call = the state the reference builds
 	Scen    string
+	Rep     int // > 1: the call is made Rep times in a row (long histories); the reference is ONE call in a fresh process
 }
 
 func c19ApplyMuts(c *jsonpath.Config, muts []string, log *c19Log) {
@@ -369,8 +377,59 @@ var c19Probes = []string{
 
 const c19PoolDoc = `{"a":[[1,2],[3]],"b":{"a":2,"b":{"a":3}},"d":[2,4]}`
 
+// c19LongHistory: see the head of the file.
+func c19LongHistory(r *Rng) []c19Call {
+	poolDoc, _ := c02Decode(c19PoolDoc)
+	base := []int{c19A, c19B, c19AccA, c19AccB}[r.Weighted([]int{40, 30, 15, 15})]
+	p := r.Pick(c19RebindPaths)
+	n := r.Range(70, 100)
+	var calls []c19Call
+	if r.Chance(40) {
+		// something else first
+		calls = append(calls, c19Call{Path: r.Pick(c19ValidPaths), Cfg: r.Weighted([]int{22, 6, 22, 18, 12, 10, 10}), Doc: poolDoc, Pool: true, Kind: "valid"})
+	}
+	if r.Chance(50) {
+		calls = append(calls,
+			c19Call{Path: p, Cfg: base, Kind: "long-history", Doc: poolDoc, Pool: true, Live: 1, Scen: "long-history", Rep: n},
+			c19Call{Path: p, Cfg: base, Kind: "long-history", Doc: poolDoc, Pool: true, Live: 1, Scen: "long-history", NewMuts: []string{"rebind"}, Muts: []string{"rebind"}})
+		if r.Chance(40) {
+			calls = append(calls, c19Call{Path: r.Pick(c19RebindPaths), Cfg: base, Kind: "long-history", Doc: poolDoc, Pool: true, Live: 1, Scen: "long-history", Muts: []string{"rebind"}})
+		}
+	} else {
+		calls = append(calls,
+			c19Call{Path: p, Cfg: base, Kind: "long-history", Doc: poolDoc, Pool: true, Rep: n, Retrieve: r.Chance(10)},
+			c19Call{Path: p, Cfg: base, Kind: "long-history", Doc: poolDoc, Pool: true, Muts: []string{"rebind"}, Retrieve: r.Chance(15)})
+		if r.Chance(50) {
+			calls = append(calls, c19Call{Path: p, Cfg: base, Kind: "long-history", Doc: poolDoc, Pool: true})
+		}
+		if r.Chance(30) {
+			other := map[int]int{c19A: c19B, c19B: c19A, c19AccA: c19AccB, c19AccB: c19AccA}[base]
+			calls = append(calls, c19Call{Path: p, Cfg: other, Kind: "long-history", Doc: poolDoc, Pool: true})
+		}
+	}
+	return calls
+}
+
+// c19DoRep makes the call c.Rep times (at least once) as part of a history; it returns the last
+// outcome and, when a repetition showed another outcome than the first call, which one and what.
+func c19DoRep(c c19Call, live *c19Live) (c19Done, string) {
+	d := c19DoIn(c, live)
+	first, differs := d.obs, ""
+	c.NewMuts = nil
+	for k := 1; k < c.Rep; k++ {
+		d = c19DoIn(c, live)
+		if d.obs != first && differs == "" {
+			differs = fmt.Sprintf("repetition %d of %d shows another outcome than the first:\n first: %s\n now:   %s", k+1, c.Rep, c19Diff(first, d.obs), c19Diff(d.obs, first))
+		}
+	}
+	return d, differs
+}
+
 func c19History(seed int64, index int) []c19Call {
 	r := CaseRng(seed, "C19", index)
+	if r.Chance(4) {
+		return c19LongHistory(r)
+	}
 	n := r.Range(2, 10)
 	focus := ""
 	if r.Chance(60) {
@@ -522,7 +581,8 @@ func (c19f) Exec(seed int64, idx int, tier string) Record {
 		var all []string
 		live := c19NewLive()
 		for _, c := range hist {
-			all = append(all, c19DoIn(c, live).obs)
+			d, _ := c19DoRep(c, live)
+			all = append(all, d.obs)
 		}
 		return Record{Info: map[string]interface{}{"all": all}}
 	}
@@ -576,6 +636,9 @@ func (c19) Exec(seed int64, i int, tier string) Record {
 	var descr []string
 	for _, c := range hist {
 		d := fmt.Sprintf("%s%s%s %q", c19CfgNames[c.Cfg], pick(c.PostMod, "+mod", ""), pick(c.Retrieve, " Retrieve", " Parse"), c.Path)
+		if c.Live == 0 && len(c.Muts) > 0 {
+			d = fmt.Sprintf("%s%s %q with a Config built for this call: %s, then %s applied to it before the call", c19CfgNames[c.Cfg], pick(c.Retrieve, " Retrieve", " Parse"), c.Path, c19CfgNames[c.Cfg], strings.Join(c.Muts, ", "))
+		}
 		if c.Live != 0 {
 			state := c19CfgNames[c.Cfg]
 			for _, m := range c.Muts {
@@ -590,6 +653,9 @@ func (c19) Exec(seed int64, i int, tier string) Record {
 				now = "just before this call: " + strings.Join(c.NewMuts, ", ") + " applied to it"
 			}
 			d = fmt.Sprintf("%s%s %q with %s, %s; its state is now %s", state, pick(c.Retrieve, " Retrieve", " Parse"), c.Path, obj, now, state)
+		}
+		if c.Rep > 1 {
+			d = fmt.Sprintf("%d times in a row: %s", c.Rep, d)
 		}
 		descr = append(descr, d)
 	}
@@ -606,8 +672,19 @@ func (c19) Exec(seed int64, i int, tier string) Record {
 	nontrivial := false
 	live := c19NewLive()
 	for j, c := range hist {
-		d := c19DoIn(c, live)
+		d, repDiffers := c19DoRep(c, live)
 		done[j] = d
+		if c.Rep > 1 {
+			nontrivial = true
+			rec.Tags = append(rec.Tags, "class:long-history", "long-history:same-call-70..100-times")
+			keyParts = append(keyParts, fmt.Sprintf("long-history:%s:live%d", c19CfgNames[c.Cfg], c.Live))
+		}
+		if c.Rep <= 1 && c.Kind == "long-history" && len(c.Muts) > 0 {
+			rec.Tags = append(rec.Tags, "long-history:then-same-names-other-functions")
+		}
+		if repDiffers != "" {
+			viol("history-dependent", "call %d (%s): %s", j, descr[j], repDiffers)
+		}
 		if c.Live != 0 {
 			nontrivial = true
 			rec.Tags = append(rec.Tags, "live-config:"+c.Scen)
